@@ -52,12 +52,16 @@ def rnd_q(rng, kind="weight"):
     return F(rng.randint(0, 60), rng.choice([1, 2, 3, 4, 5, 7, 8, 16]))
 
 
-def rnd_fit(rng):
+def rnd_fit(rng, over=False):
     r = rng.random()
+    if over:      # overbooked pools: every child above 1 (fitness values are non-negative, not bounded by 1)
+        return rng.choice([F(5, 4), F(3, 2), F(2), F(17, 16), F(100), F(2 ** 40)])
     if r < 0.25:
         return F(0)
     if r < 0.4:
         return F(1)
+    if r < 0.5:
+        return rng.choice([F(5, 4), F(3), F(33, 16), F(1000)])
     return F(rng.randint(0, 16), 16)
 
 
@@ -119,6 +123,8 @@ def gen_cases(rng, n):
             children = [c if i == j else ["0/1", "0/1", "0/1", c[3]] for i, c in enumerate(children)]
         elif mode < 0.35 and nch:    # equal weights
             children = [children[0][:3] + [c[3]] for c in children]
+        elif mode < 0.45 and nch:    # every child overbooked: utilisation and allocation above 1 throughout
+            children = [[c[0], fr(rnd_fit(rng, True)), fr(rnd_fit(rng, True)), c[3]] for c in children]
         ops = []
         cur = nch
         for _ in range(rng.randint(1, 12)):
